@@ -86,9 +86,48 @@ func instrumentFile(path, rel string) error {
 		sel, isSel := call.Fun.(*ast.SelectorExpr)
 		return isSel && sel.Sel.Name == "Do"
 	}
+	waitCall := func(s ast.Stmt) bool {
+		es, isExpr := s.(*ast.ExprStmt)
+		if !isExpr {
+			return false
+		}
+		call, isCall := es.X.(*ast.CallExpr)
+		if !isCall || len(call.Args) != 0 {
+			return false
+		}
+		sel, isSel := call.Fun.(*ast.SelectorExpr)
+		return isSel && sel.Sel.Name == "Wait"
+	}
 	doList := func(list []ast.Stmt) {
 		for _, s := range list {
 			if _, isLabeled := s.(*ast.LabeledStmt); isLabeled {
+				continue
+			}
+			if g, isGo := s.(*ast.GoStmt); isGo {
+				// go f(a, b)  =>  BeforeGo(); go GoWrap(site, Bind(f, a, b)); AfterGo()
+				id := newSite(fset, s.Pos(), "go", rel)
+				call := g.Call
+				bind := "Bind"
+				if call.Ellipsis.IsValid() {
+					bind = "BindSlice"
+					edits = append(edits, edit{off(call.Ellipsis), off(call.Ellipsis) + 3, ""})
+				}
+				edits = append(edits, edit{off(s.Pos()), off(s.Pos()), fmt.Sprintf("verifsim.Yield(%d); verifsim.BeforeGo(); ", id)})
+				edits = append(edits, edit{off(call.Fun.Pos()), off(call.Fun.Pos()), fmt.Sprintf("verifsim.GoWrap(%d, verifsim.%s(", id, bind)})
+				sep := ", "
+				if len(call.Args) == 0 {
+					sep = ""
+				}
+				edits = append(edits, edit{off(call.Lparen), off(call.Lparen) + 1, sep})
+				edits = append(edits, edit{off(call.Rparen), off(call.Rparen) + 1, "))"})
+				edits = append(edits, edit{off(s.End()), off(s.End()), "; verifsim.AfterGo()"})
+				continue
+			}
+			if waitCall(s) {
+				// x.Wait() (WaitGroup, Cond, ...): the real wait runs in a helper goroutine, the task polls
+				id := newSite(fset, s.Pos(), "wait", rel)
+				edits = append(edits, edit{off(s.Pos()), off(s.Pos()), fmt.Sprintf("verifsim.WaitFunc(%d, func() { ", id)})
+				edits = append(edits, edit{off(s.End()), off(s.End()), " })"})
 				continue
 			}
 			if recv, method, ok := lockCall(s); ok {
@@ -110,6 +149,85 @@ func instrumentFile(path, rel string) error {
 			edits = append(edits, edit{off(s.Pos()), off(s.Pos()), fmt.Sprintf("verifsim.Yield(%d); ", id)})
 		}
 	}
+	// channel operations outside select communication clauses become scheduler-aware calls
+	inComm := map[ast.Node]bool{}
+	twoValueRecv := map[*ast.UnaryExpr]bool{}
+	labelOf := map[ast.Stmt]string{}
+	ast.Inspect(f, func(n ast.Node) bool {
+		switch x := n.(type) {
+		case *ast.CommClause:
+			if x.Comm != nil {
+				ast.Inspect(x.Comm, func(m ast.Node) bool {
+					if m != nil {
+						inComm[m] = true
+					}
+					return true
+				})
+			}
+		case *ast.LabeledStmt:
+			labelOf[x.Stmt] = x.Label.Name
+		case *ast.AssignStmt:
+			if len(x.Lhs) == 2 && len(x.Rhs) == 1 {
+				if u, ok := x.Rhs[0].(*ast.UnaryExpr); ok && u.Op == token.ARROW {
+					twoValueRecv[u] = true
+				}
+			}
+		case *ast.ValueSpec:
+			if len(x.Names) == 2 && len(x.Values) == 1 {
+				if u, ok := x.Values[0].(*ast.UnaryExpr); ok && u.Op == token.ARROW {
+					twoValueRecv[u] = true
+				}
+			}
+		}
+		return true
+	})
+	ast.Inspect(f, func(n ast.Node) bool {
+		switch x := n.(type) {
+		case *ast.UnaryExpr:
+			if x.Op == token.ARROW && !inComm[x] {
+				id := newSite(fset, x.Pos(), "recv", rel)
+				fn := "Recv1"
+				if twoValueRecv[x] {
+					fn = "Recv2"
+				}
+				edits = append(edits, edit{off(x.OpPos), off(x.OpPos) + 2, fmt.Sprintf("verifsim.%s(%d, ", fn, id)})
+				edits = append(edits, edit{off(x.X.End()), off(x.X.End()), ")"})
+			}
+		case *ast.SendStmt:
+			if !inComm[x] {
+				id := newSite(fset, x.Pos(), "send", rel)
+				edits = append(edits, edit{off(x.Chan.Pos()), off(x.Chan.Pos()), fmt.Sprintf("verifsim.Send(%d, ", id)})
+				edits = append(edits, edit{off(x.Arrow), off(x.Arrow) + 2, ", "})
+				edits = append(edits, edit{off(x.Value.End()), off(x.Value.End()), ")"})
+			}
+		case *ast.SelectStmt:
+			hasDefault := false
+			for _, c := range x.Body.List {
+				if cc, ok := c.(*ast.CommClause); ok && cc.Comm == nil {
+					hasDefault = true
+				}
+			}
+			if !hasDefault {
+				// L: select { case c: AwaitBaton(); body ... ; case <-verifsim.SelWait(site): SelWoken(); goto L }
+				id := newSite(fset, x.Pos(), "select", rel)
+				label := labelOf[x]
+				if label == "" {
+					label = fmt.Sprintf("verifsimSelect%d", id)
+					edits = append(edits, edit{off(x.Pos()), off(x.Pos()), label + ": "})
+				}
+				for _, c := range x.Body.List {
+					cc := c.(*ast.CommClause)
+					edits = append(edits, edit{off(cc.Colon) + 1, off(cc.Colon) + 1, " verifsim.AwaitBaton();"})
+				}
+				lead := "; "
+				if len(x.Body.List) == 0 {
+					lead = ""
+				}
+				edits = append(edits, edit{off(x.Body.Rbrace), off(x.Body.Rbrace), fmt.Sprintf("%scase <-verifsim.SelWait(%d): verifsim.SelWoken(); goto %s; ", lead, id, label)})
+			}
+		}
+		return true
+	})
 	skip := map[*ast.BlockStmt]bool{}
 	ast.Inspect(f, func(n ast.Node) bool {
 		switch x := n.(type) {
